@@ -167,7 +167,7 @@ def unit_norm(prog, run):
         f = rel(prog.mods[fi.mod].path)
         if not sites:
             # no pivot search (argmax family) at all in the function or its private helpers: the largest component cannot have been found
-            fns = [fi] + [r for c, r in prog.calls_in(fi) if isinstance(r, FuncInfo) and r.cls is None and r.node.name.startswith("_")]
+            fns = [fi] + [prog.functions[q] for q in prog.reachable([fi.qual]) if q in prog.functions and q != fi.qual and not q.startswith("pyoma2.functions.plot")]
             has_arg = any(isinstance(c, ast.Call) and (astq.callee_name(prog, g, c).split(".")[-1] in ("argmax", "nanargmax", "argsort", "argmin"))
                           for g in fns for c in ast.walk(g.node))
             run.ob("R-unit-norm", fi.qual, "normalisation", None if has_arg else False,
